@@ -223,7 +223,7 @@ func c17Child(c *mon.Child) {
 		{"enclosing-alternative", nil, ``, "alt", false},
 	}
 	for ki, k := range numKinds {
-		texts := c17Texts(k, c.RNG("texts", k.name), c.N(120, 1500))
+		texts := c17Texts(k, c.RNG("texts", k.name), c.N(120, 20000))
 		for vi, v := range variants {
 			var p *participle.Parser[any]
 			var err error
@@ -424,6 +424,50 @@ func c17Child(c *mon.Child) {
 				}
 				c.End(key)
 			}
+		}
+	}
+	// second pass, widest kinds first: a conversion must not depend on what was converted before
+	// (the first pass went from narrow to wide; the same texts now meet the kinds in the opposite order)
+	for ki := len(numKinds) - 1; ki >= 0; ki-- {
+		k := numKinds[ki]
+		p, err := c17Build(c17Struct(k.typ, `@Tok`), participle.Lexer(c17LexLower))
+		if err != nil {
+			continue
+		}
+		for ti, text := range c17Texts(k, c.RNG("texts", k.name), 0) {
+			if strings.Contains(text, "-") {
+				continue
+			}
+			key := fmt.Sprintf("r%d.t%d", ki, ti)
+			if !c.Want(key) {
+				continue
+			}
+			// texts of the neighbouring kinds as well: the same text meets several widths
+			for _, other := range []numKind{numKinds[(ki+1)%len(numKinds)], numKinds[(ki+len(numKinds)-1)%len(numKinds)]} {
+				if other.class != k.class {
+					continue
+				}
+				po, err := c17Build(c17Struct(other.typ, `@Tok`), participle.Lexer(c17LexLower))
+				if err == nil {
+					mon.Guard(func() { _, _ = po.ParseString("", text) })
+				}
+			}
+			c.Eval(1)
+			e := numOracle(k, text)
+			var res *any
+			var perr error
+			pn, pv, _ := mon.Guard(func() { res, perr = p.ParseString("", text) })
+			switch {
+			case pn:
+				c.Violation("", key, fmt.Sprintf("parse panicked: %s | %s field, input %q (second pass)", pv, k.name, text), nil)
+			case (e.err == nil) != (perr == nil):
+				c.Violation("", key, fmt.Sprintf("after other conversions of the same text: strconv error=%v but parse error=%v | %s field, input %q", e.err, perr, k.name, text), map[string]interface{}{"kind": k.name, "input": text})
+			case e.err == nil:
+				if ok, got := numEqual(k, c17Field(res), e); !ok {
+					c.Violation("", key, fmt.Sprintf("after other conversions of the same text: stored %s, strconv says %v | %s field, input %q", got, fmtExp(k, e), k.name, text), map[string]interface{}{"kind": k.name, "input": text})
+				}
+			}
+			c.Feature("second_pass_wide_to_narrow_cases")
 		}
 	}
 	// default lexer: Int / Float tokens
